@@ -589,7 +589,7 @@ pub fn run_kinds(ctx: &Ctx, small: &[(u8, u8)], kinds: &[Kind]) -> Vec<SubReport
     let mut subs = vec![];
     subs.push(enumerate_config("exhaustive-small", kinds, small, 400_000));
     if ctx.tier == vcore::Tier::Thorough {
-        subs.push(enumerate_config("exhaustive-medium", kinds, &[(3, 2), (4, 1)], 1_500_000));
+        subs.push(enumerate_config("exhaustive-medium", kinds, &[(3, 2), (4, 1)], 150_000));
     }
     let n = ctx.tier.pick(12_000, 400_000);
     let ks: Vec<Kind> = kinds.to_vec();
